@@ -320,7 +320,9 @@ class GcodeParser(CommonMixin):  # pylint: disable=too-many-instance-attributes
 
         if (self._checksum is not None):
             # Verify the checksum matches our computation
-            command = self.leadingWhitespace + self.text
+            # Leading whitespace is not part of the checksummed text (Marlin skips it, and
+            # stringify computes the checksum without it)
+            command = self.text
             computedChecksum = self.computeChecksum(command)
 
             if (self._checksum != computedChecksum):
